@@ -50,6 +50,15 @@ CHECKS = {
     "C19": dict(level="exploration", ref="7/C19", technique="counter deltas from a private registry per vector, contract evaluated by TLC",
                 text="For every vector of C06/C11/C17 the counters of a private Prometheus registry are read after the line; TLC checks exactly one increment with matching outcome/method per emitted event and none for non-keyword lines.",
                 note=SSHD_NOTE),
+    "C03": dict(level="model_checking", ref="7/C03", technique="TLA+ lock-granularity spec (TrackerConc.tla) checked by TLC for linearizability; exhaustive controlled-schedule exploration of the same programs on the real tracker, outcomes validated by TLC (TrackerLin.tla); race detector",
+                text="TLC checks every interleaving of the programs of TrackerConcMC at critical-section granularity (outcome at quiescence in the set of sequential outcomes, no lost wake-up, termination). The scheduling hook makes the harness the scheduler: all lock-level schedules of those programs are executed on the real tracker and TLC checks every distinct outcome against the sequential specification; free-running runs under -race.",
+                note="Trusted: TLC, the controlled scheduler (harness/sched), the hook placement (one scheduling point before each instrumented lock acquisition and at the event encoder). Exhaustive for the listed programs; larger ones by bounded pre-emption/random schedules. The race detector only sees executed interleavings."),
+    "C05": dict(level="model_checking", ref="7/C05", technique="TLA+ spec of the write/hand-off protocol (SshdProc.tla, TLC incl. liveness) + every environment script realised on the real processor and validated by TLC (SshdProcTrace.tla) + Login contract over all TLC-enumerated vectors",
+                text="SshdProc.tla: all 54 environment scripts (write ok/fail x receiver ready/late/never x cancel never/before/while blocked) x interleavings satisfy at-most-once, write-before-send, error-on-failure, forwarded-unless-cancelled, progress. Each script is realised against the real processor with real lines; the recorded event sequence must be a behaviour of the spec. PID/credential/identity of the forwarded login are checked for every accepted-login vector.",
+                note="Trusted: TLC; timing assumptions of the scenario harness (40 ms to call a worker blocked, 300 ms to call it stuck)."),
+    "C18": dict(level="model_checking", ref="7/C18", technique="TLA+ spec (Health.tla) checked by TLC; sequential histories, exhaustive lock-level schedules and WaitForReady scripts on the real code validated by TLC (HealthTrace.tla)",
+                text="TLC: every interleaving of status requests with registrations/ready-marks yields internally consistent, linearizable responses. All op sequences up to length 4 (6 thorough) over 3 names are replayed through the real handler; all schedules of four concurrent programs are executed on the real code; 120 WaitForReady scripts.",
+                note="Trusted: TLC, the controlled scheduler; WaitForReady observed with a 2 ms poll interval and 150 ms settle times."),
 }
 
 ALL = ["C%02d" % i for i in range(1, 21)]
